@@ -28,6 +28,8 @@
   * `build_no_invention`    every successor index / default stored in a state is the id of the
                             target of a transition given for that state or of its declared default
   * `build_no_conflict`     `Ok A →` no character has two successors in the transitions given
+  * `build_unchecked_eq`    `build = Ok A → build_unchecked = A` (for C02: `compile` uses
+                            `build_unchecked`); `build_unchecked_of_valid`
   * `cleanup_preserves_delta` (shared with C02) is in Proofs/AutomatonState.lean and re-exported.
   Reading of "conflict-free" (§8): overlapping labels with the *same* target are rejected too
   (`build_ok_iff` is stated with pairwise disjoint labels, the documented contract).
@@ -741,12 +743,76 @@ theorem build_verdict_exec {k0 : Nat} {ops : List BuilderOp} (hwf : WFOps ops) :
   · unfold verdict
     rw [k2 e, build_error_kind hwf]
 
+/-! ### `build_unchecked` (used by `compile`, C02) -/
+
+theorem buildState_ok_unchecked {s : StateInConstruction} {i : Nat} {st : State}
+    (h : s.buildState i = some (.ok st)) : s.buildStateUnchecked i = some st := by
+  unfold StateInConstruction.buildState at h
+  unfold StateInConstruction.buildStateUnchecked
+  split at h
+  · cases h
+  · split at h
+    · cases h
+    · split at h
+      · cases h
+      · dsimp only at h ⊢
+        split at h
+        · cases h
+        · rename_i p hp
+          split at h
+          · cases h
+          · rename_i succ hs
+            cases h
+            rfl
+
+theorem buildLoop_ok_unchecked (sts : List StateInConstruction) (i nf : Nat)
+    {r : List State × Nat} (h : Builder.buildLoop i sts nf = some (.ok r)) :
+    Builder.buildUncheckedLoop i sts nf = some r := by
+  induction sts generalizing i nf r with
+  | nil =>
+    simp only [Builder.buildLoop, Option.some.injEq, Except.ok.injEq] at h
+    subst h; rfl
+  | cons s rest ih =>
+    simp only [Builder.buildLoop] at h
+    split at h
+    · cases h
+    · cases h
+    · rename_i st hst
+      split at h
+      · cases h
+      · cases h
+      · rename_i sts' nf' hrest
+        cases h
+        simp only [Builder.buildUncheckedLoop, buildState_ok_unchecked hst, ih _ _ hrest]
+
+/-- **build_unchecked_eq**: whenever `build` returns an automaton, `build_unchecked` returns the
+    same automaton (no hypothesis on the builder).  Hence every theorem of this file about the
+    automaton returned by `build` on a valid specification holds for `build_unchecked`. -/
+theorem build_unchecked_eq {b : Builder} {A : Automaton} (h : b.build = some (.ok A)) :
+    b.buildUnchecked = some A := by
+  unfold Builder.build at h
+  unfold Builder.buildUnchecked
+  split at h
+  · cases h
+  · cases h
+  · rename_i sts nf hl
+    cases h
+    rw [buildLoop_ok_unchecked _ _ _ hl]
+
+/-- `build_unchecked` on a valid specification: it returns the automaton `build` returns -/
+theorem build_unchecked_of_valid {k0 : Nat} {ops : List BuilderOp} (hwf : WFOps ops)
+    (hv : Valid k0 ops) :
+    ∃ A, (Builder.run k0 ops).build = some (.ok A) ∧ (Builder.run k0 ops).buildUnchecked = some A := by
+  obtain ⟨A, hA⟩ := (build_ok_iff hwf).2 hv
+  exact ⟨A, hA, build_unchecked_eq hA⟩
+
 /-! ### call sequences with `build()` interleaved -/
 
-/-- a call on a builder: one of the three mutators, or `build()` -/
+/-- a call on a builder: one of the three mutators, `build()` or `build_unchecked()` -/
 inductive Call where
   | op (o : BuilderOp)
   | build
+  | buildUnchecked
 deriving DecidableEq, Repr
 
 /-- run a call sequence; collects the result of every `build()` call, in order.
@@ -757,21 +823,24 @@ def runCalls (b : Builder) : List Call → Builder × List (Option (Except Err A
   | .build :: rest =>
     let r := runCalls b rest
     (r.1, b.build :: r.2)
+  | .buildUnchecked :: rest => runCalls b rest     -- result (or panic) dropped, builder unchanged
 
 /-- the mutator calls of a sequence -/
 def opsOf : List Call → List BuilderOp
   | [] => []
   | .op o :: rest => o :: opsOf rest
   | .build :: rest => opsOf rest
+  | .buildUnchecked :: rest => opsOf rest
 
 def countBuilds : List Call → Nat
   | [] => 0
   | .op _ :: rest => countBuilds rest
   | .build :: rest => countBuilds rest + 1
+  | .buildUnchecked :: rest => countBuilds rest
 
 /-- **build_any_sequence**: in any sequence of calls, the result of every `build()` is
-    `build` of the builder reached by the mutator calls made so far — earlier `build()` calls
-    have no influence.  Hence all theorems above apply to every `build()` of every sequence. -/
+    `build` of the builder reached by the mutator calls made so far — earlier `build()` and
+    `build_unchecked()` calls have no influence.  Hence all theorems above apply to every `build()` of every sequence. -/
 theorem build_any_sequence (k0 : Nat) (pre post : List Call) :
     (runCalls (Builder.new k0) (pre ++ .build :: post)).2[countBuilds pre]? =
       some (Builder.run k0 (opsOf pre)).build := by
@@ -786,6 +855,7 @@ theorem build_any_sequence (k0 : Nat) (pre post : List Call) :
       cases c with
       | op o => simpa [runCalls, countBuilds, opsOf] using ih (b.step o)
       | build => simpa [runCalls, countBuilds, opsOf] using ih b
+      | buildUnchecked => simpa [runCalls, countBuilds, opsOf] using ih b
   exact key pre (Builder.new k0)
 
 /-! ### re-export (shared with C02) -/
